@@ -186,6 +186,17 @@ Theorem C03_converges_bounded : forall hc hu lc T,
 Proof. exact calm_converges. Qed.
 Print Assumptions C03_converges_bounded.
 
+(* One step before calm: the finalizer is not yet as the spawning handlers require it (a new process with daemons meets
+   an object without it; the last daemon has gone and it is still there).  The first cycle only adds / removes the
+   finalizer, and from its echo on the object is calm: the same convergence, one step later. *)
+Theorem C03_converges_from_precalm : forall hc hu lc T,
+  NoDup (hc ++ hu) -> has_handlers hc hu = true ->
+  forall w first failing, precalm hc hu w ->
+  exists n, let w' := drive hc hu lc T (first :: failing ++ repeat ok n) w in
+    quiescent w' = true /\ settled hc hu (w_srv w') = true /\ o_ess (w_srv w') = o_ess (w_srv w).
+Proof. exact precalm_settles. Qed.
+Print Assumptions C03_converges_from_precalm.
+
 (* [calmb] decides the hypothesis; the harness evaluates it on every state of every recorded history of the real
    operator and reports how many are calm (evidence: calm_states_in_recorded_histories) *)
 Theorem C03_calm_checkable : forall hc hu w, calmb hc hu w = true -> calm hc hu w.
